@@ -17,7 +17,7 @@ from vf import report, backends, model as M
 from vf.conform import Conf, step as conf_step
 
 PID = "C02"
-SEGS = ["a", "b", "..", ".", "", "...", ".h", "a\\b", "..\\..", "C:", "C:\\x", "c:x", "\\\\srv\\share", " "]
+SEGS = ["a", "b", "..", ".", "", "...", ".h", "a\\b", "..\\..", "C:", "C:\\x", "c:x", "\\\\srv\\share", " ", '"a"']
 PREFIXES = ["", "/", "//", "///"]
 BASES = [("posix", "/srv/ftp"), ("posix", "rel/base"), ("posix", "."), ("posix", "/"), ("posix", "/srv/ftp/nested"),
          ("windows", "C:\\ftp")]
@@ -135,7 +135,7 @@ def func_items(tier):
 
 # -- wire level ------------------------------------------------------------
 WTREE = {"a": {"b": {"c": {}}, "f": b"af"}, "b": {}, "f": b"ff"}
-WSEGS = ["a", "b", "..", ".", "", "...", "f", " a", " .."]       # the last two: names that begin with a blank
+WSEGS = ["a", "b", "..", ".", "", "...", "f", " a", " ..", '"a"']       # the last two: names that begin with a blank
 WVERBS = ["CWD", "MKD", "RMD", "MLSD", "LIST", "MLST", "RNFR", "RNTO", "DELE", "STOR", "APPE", "RETR"]
 WCWD_HISTS = [[], ["CWD a"], ["CWD a/b"], ["CWD a/b/c"], ["CWD a/b", "CDUP"], ["CWD b", "CWD ../a/b/c", "CDUP"]]
 
